@@ -102,6 +102,8 @@ class Group:
             raise Unsupported("operator %s in %s" % (type(e.op).__name__, fname))
         if isinstance(e, ast.UnaryOp) and isinstance(e.op, ast.USub):
             return "(- %s)" % self.expr(e.operand, fname)
+        if isinstance(e, ast.Attribute) and dotted(e) in self.attr_params:
+            return self.attr_params[dotted(e)]     # e.g. self.__p -> parameter p (extension; was Unsupported)
         if isinstance(e, ast.Call):
             key = dotted(e.func)
             if key in self.attr_params and not e.args:
@@ -165,10 +167,24 @@ class Group:
                     out += "".join("%slet %s := %s'\n" % (pad, n, n) for n in names)
                     return out + self.body(rest, indent, fname)
                 return "".join("%slet %s := %s\n" % (pad, n, r) for n, r in zip(names, rhs)) + self.body(rest, indent, fname)
+            if isinstance(t, ast.Tuple) and isinstance(s.value, ast.Call) and len(t.elts) >= 2 \
+                    and all(isinstance(x, ast.Name) for x in t.elts):
+                # extension (was Unsupported): `a, b, c = f(...)` with f returning a tuple of that arity
+                names = [x.id for x in t.elts]
+                tmp = "t_%d" % s.lineno
+                out = "%slet %s := %s\n" % (pad, tmp, self.expr(s.value, fname))
+                for i, n in enumerate(names):
+                    proj = ".2" * i + (".1" if i < len(names) - 1 else "")
+                    out += "%slet %s := %s%s\n" % (pad, n, tmp, proj)
+                return out + self.body(rest, indent, fname)
             raise Unsupported("assignment target in %s" % fname)
         if isinstance(s, ast.AugAssign) and isinstance(s.target, ast.Name):
             fake = ast.BinOp(left=ast.Name(id=s.target.id), op=s.op, right=s.value)
             return "%slet %s := %s\n" % (pad, s.target.id, self.expr(fake, fname)) + self.body(rest, indent, fname)
+        if isinstance(s, ast.Pass):
+            return self.body(rest, indent, fname)      # extension (was Unsupported)
+        if isinstance(s, ast.Assert) and getattr(self, "ignore_asserts", False):
+            return self.body(rest, indent, fname)      # extension: only when the group opts in
         if isinstance(s, ast.If):
             return "%sif %s then\n" % (pad, self.cond(s.test, fname)) + self.body(s.body + rest, indent + 1, fname) \
                 + "%selse\n" % pad + self.body(s.orelse + rest, indent + 1, fname)
@@ -176,6 +192,8 @@ class Group:
             v = s.value
             if isinstance(v, ast.Tuple):
                 return "%s(%s)\n" % (pad, ", ".join(self.expr(x, fname) for x in v.elts))
+            if self.ret_types.get(fname) == "Bool":
+                return "%s%s\n" % (pad, self.cond(v, fname))    # extension: boolean-valued functions
             return "%s%s\n" % (pad, self.expr(v, fname))
         raise Unsupported("statement %s in %s" % (type(s).__name__, fname))
 
